@@ -208,7 +208,7 @@ var WatchdogInfo atomic.Value
 // in a way synctest does not consider durable.  Exit status 3 = "cannot decide", never a verdict.
 func startWatchdog() {
 	watchdogOnce.Do(func() {
-		limit := 60
+		limit := 240 // half-second ticks: two minutes of wall-clock without a scheduler step
 		if v := os.Getenv("VERIF_WATCHDOG_TICKS"); v != "" {
 			if n, err := strconv.Atoi(v); err == nil {
 				limit = n
